@@ -174,6 +174,16 @@ def simd_histories(rng, tier, B, quick_n=260, thorough_n=6000):
                  "fin256 0", "fin256 1"]
         hists.append(History(hid, lines, {"len": n, "boundary": True}))
         hid += 1
+    # the one-shot helpers hashN(data) on a hasher that is NOT fresh: pending bytes from appends, from a restore, from a clone
+    for k, (pre, n) in enumerate([(0, 40), (1, 5), (3, 93), (16, 16), (31, 1), (32, 7), (33, 64), (45, 51), (70, 26), (5, 0), (17, 130)][: (6 if tier == "quick" else 11)]):
+        key = G.rand_key(rng)
+        d = rng.bytes(pre + n, 1)
+        w = G.WIDTHS[k % 3]
+        lines = ["new 0 %s %s" % (B, G.keystr(key)), "new 1 P %s" % G.keystr(key), "append 0 %s" % hexs(d[:pre]), "append 1 %s" % hexs(d[:pre]),
+                 "restorefrom 2 %s 1" % B, "clone 3 0",
+                 "hash%s 0 %s" % (w, hexs(d[pre:])), "hash%s 1 %s" % (w, hexs(d[pre:])), "hash%s 2 %s" % (w, hexs(d[pre:])), "hash%s 3 %s" % (w, hexs(d[pre:]))]
+        hists.append(History(hid, lines, {"len": pre + n, "oneshot": True, "nontrivial": True}))
+        hid += 1
     for i in range(40 if tier == "quick" else 1500):   # arbitrary blobs and defaults
         blob, cnt = G.rand_blob(rng)
         d = G.rand_data(rng, rng.below(80))
@@ -193,6 +203,10 @@ def simd_oracle(h, il):
     if h.meta.get("boundary"):
         if len(ds) == 2 and ds[0] != ds[1]:
             return "SIMD digest %s differs from PortableHash %s" % (ds[0], ds[1])
+        return None
+    if h.meta.get("oneshot"):
+        if len(ds) == 4 and len(set(ds)) != 1:
+            return "one-shot hashN on a hasher with pending bytes: SIMD (appended / restored / cloned) and PortableHash give %s" % ds
         return None
     if "cut" in h.meta:
         if len(cks) == 3 and not (cks[0] == cks[1] == cks[2]):
